@@ -1558,3 +1558,28 @@ Proof.
   assert (Ef : f = msg_frame m) by (destruct m; inv Ed; reflexivity).
   rewrite Ef, (msg_frame_item m Hr). apply sent_item_frame.
 Qed.
+
+(* ------------------------------------------------------------------------------------------ *)
+(** * 12. at every instant, also in the middle of a call *)
+
+(* cut the log anywhere: the bytes accepted up to that event, followed by what out_buffer held at
+   that moment, are the well-formed encoding of the frames queued up to that event *)
+Theorem wire_wellformed_always r part cfg x0 ops w0 rs x w l1 l2 :
+  ctx_new r part cfg = Some x0 -> w_log w0 = [] ->
+  Forall op_no_raw ops -> Forall op_len_u64 ops ->
+  run_ops x0 ops w0 = (rs, x, w) ->
+  w_log w = l1 ++ l2 ->
+  exists (unsent : bytes) (its1 : list witem),
+    queued l1 = map item_frame its1 /\ wf_wire r (wire l1 ++ unsent) its1.
+Proof.
+  intros Hn Hl H1 H2 Hr Hs.
+  assert (Ho : Forall (op_P (P_wire r)) ops).
+  { rewrite Forall_forall in *. intros o Hi. apply op_user_P_wire; auto. }
+  destruct (reach_inv r (P_wire r) (P_wire_ok r) _ _ _ _ _ _ _ _ Hn Hl Ho Hr) as [_ [HF [d [_ Hk]]]].
+  rewrite Hs, queued_app in HF, Hk. apply Forall_app in HF. destruct HF as [HF1 _].
+  destruct (frames_items r (queued l1) HF1) as [its1 [Eq Hok]].
+  { intros ->. destruct Hk as [Hm _]. apply Forall_app in Hm. apply Hm. }
+  destruct (c10_prefix_always _ _ _ _ _ _ _ _ _ l1 l2 Hn Hl Hr Hs) as [unsent Hu].
+  exists unsent, its1. split; [exact Eq|].
+  rewrite <- Hu, Eq. apply enc_items_wf. exact Hok.
+Qed.
